@@ -33,6 +33,8 @@ type SpecEnv struct {
 	locals func(name string) (specVal, bool)
 	where  string
 	macroDepth int
+	entrySt     *State
+	entryLocals func(name string) (specVal, bool)
 }
 
 type specErr string
@@ -308,6 +310,11 @@ func (env *SpecEnv) field(x specVal, name string) specVal {
 			cur = env.fx.readField(env.st, cur, si, idx)
 			ct = ft
 			ptr = false
+			// values stored in a well-typed heap satisfy their type's shape facts
+			// (references below the allocation counter, lengths non-negative ...)
+			if env.st != nil && !strings.Contains(cur.String(), "!q") && !strings.Contains(cur.String(), "!e") {
+				env.fx.assumeType(env.st, cur, ct)
+			}
 			if p, ok := ct.Underlying().(*types.Pointer); ok {
 				if _, isS := p.Elem().Underlying().(*types.Struct); isS {
 					// continue through pointer for the next path element
@@ -469,6 +476,17 @@ func (env *SpecEnv) call(e *SExpr) specVal {
 			n.vars[k] = v
 		}
 		return n.expr(e.Args[0])
+	case "entry":
+		// entry(e): the value of e when the loop was entered (before its first iteration)
+		if env.entrySt == nil {
+			env.fail("entry() is only available in loop invariants")
+		}
+		n := *env
+		n.st = env.entrySt
+		if env.entryLocals != nil {
+			n.locals = env.entryLocals
+		}
+		return n.expr(e.Args[0])
 	case "forall", "exists":
 		binders, body, pats := splitQuant(e)
 		if len(binders) < 1 || body == nil {
@@ -610,8 +628,17 @@ func (env *SpecEnv) call(e *SExpr) specVal {
 	case "addr":
 		// addr(x.f): the address (reference) of field f of object x
 		a := e.Args[0]
+		if a.Kind == "index" {
+			x := env.expr(a.Args[0])
+			i := env.expr(a.Args[1])
+			sl, ok := x.typ.Underlying().(*types.Slice)
+			if !ok {
+				env.fail("addr(x[i]) needs a slice")
+			}
+			return specVal{fx.eaddr(SlcBase(x.t), Add(SlcOff(x.t), i.t)), types.NewPointer(sl.Elem())}
+		}
 		if a.Kind != "field" {
-			env.fail("addr() needs a field expression")
+			env.fail("addr() needs a field or element expression")
 		}
 		loc := env.assignLoc(a)
 		if loc == nil || loc.si == nil {
